@@ -73,7 +73,7 @@ def gen_kind(rng, idx: int) -> dict:
             'addpath': ap, 'extmsg': rng.chance(0.3),
             # the other walk through session establishment (exabgp answers the peer's OPEN), and a peer that writes its OPEN in the
             # RFC 9072 extended format although it would fit the classic one (allowed at any time)
-            'local_auto': rng.chance(0.12), 'open_ext': rng.chance(0.2)}  # fmt: skip
+            'local_auto': rng.chance(0.12), 'open_ext': rng.chance(0.2), 'ap_extra': rng.chance(0.4)}  # fmt: skip
 
 
 def generate(rng, tier: str, index: int) -> dict:
@@ -89,9 +89,12 @@ def generate(rng, tier: str, index: int) -> dict:
         items = []
         for _ in range(n):
             g = rng.choice(GENERATORS)
+            adv = False
             if state == 'await-open' and rng.chance(0.6):
                 g = 'open-fuzz'
-            items.append({'gen': g, 'seed': rng.randint(1, 1 << 40), 'size': rng.choice([0, 1, 3, 16, 64, 200, 1000, 4000, 4077, 30000, 65000]),
+            elif state != 'established' and rng.chance(0.35):
+                g, adv = 'misc-type', True  # a well-formed OPERATIONAL advisory where an OPEN / a KEEPALIVE is expected
+            items.append({'gen': g, 'adv': adv, 'seed': rng.randint(1, 1 << 40), 'size': rng.choice([0, 1, 3, 16, 64, 200, 1000, 4000, 4077, 30000, 65000]),
                           'slow': rng.choice([None, None, None, None, [rng.randint(1, 18), rng.choice([0.12, 0.2, 0.35])], [19 + rng.randint(1, 40), rng.choice([0.12, 0.25])]])})
         if state == 'established' and k['extmsg'] and rng.chance(0.5):
             # a session that negotiated 65535-byte messages is sent one: valid by construction, far above 4096
@@ -394,12 +397,19 @@ def build(item: dict, kind: dict) -> tuple[int, bytes, bool]:
         return 1, (hdr + opt)[:mx], False
     if g == 'misc-type':
         t = rng.choice([3, 3, 5, 5, 6, 4])
+        if item.get('adv'):
+            t = 6
         if t == 3:
             code, sub = rng.choice([(6, 2), (6, 4), (6, 2), (1, 1), (0, 0), (255, 255), (6, 9)])
             data = rng.choice([b'', bytes([rng.randint(0, 255)]) + rb(rng, rng.choice([0, 5, 128, 255])), bytes([5]) + b'\xff\xfe\xc3(\n', rb(rng, size)])
             return 3, (bytes([code, sub]) + data)[:mx], False
         if t == 5:
             return 5, rng.choice([b'', rb(rng, 3), rb(rng, 4), bytes([0, 1, rng.choice([0, 1, 2, 255]), 1]), rb(rng, 5), bytes([0, 1, 0, 1]) + rb(rng, rng.choice([1, 7, 30, size]))])[:mx], False
+        if t == 6 and (item.get('adv') or rng.chance(0.4)):
+            # a well-formed advisory (ADM / ASM) whose text is not ASCII
+            text = rng.choice(['caf\u00e9 ferm\u00e9', '\u8def\u7531\u5668', 'plain', 'x\u00a0y']).encode('utf-8') + (bytes([0xFF, 0xFE]) if rng.chance(0.3) else b'')
+            payload = bytes([0, 1, 1]) + text
+            return 6, rng.choice([1, 2]).to_bytes(2, 'big') + len(payload).to_bytes(2, 'big') + payload, False
         if t == 6:
             return 6, (rng.choice([1, 2, 3, 4, 5, 6, 7, 8, 65535, 0]).to_bytes(2, 'big') + rng.choice([0, 2, 4, 9, 65535]).to_bytes(2, 'big') + rb(rng, rng.choice([0, 2, 4, 9, 40, size])))[:mx], False
         return 4, rb(rng, rng.choice([0, 1, 5])), False
@@ -552,6 +562,9 @@ def execute(plan: dict) -> dict:
         spec = {'asn': k['peer_as'], 'families': fams, 'asn4': k['asn4'], 'extmsg': k['extmsg']}
         if ap:
             spec['addpath'] = [(a, s, 2) for a, s in ap]
+            if k.get('ap_extra'):
+                # the peer's ADD-PATH capability also names a family ours does not (legal: each side lists what it wants)
+                spec['addpath'] += [(a, s, 3) for a, s in fams if (a, s) not in ap and s in (1, 4, 128)][:1]
         sp = Speaker(w, f'p{k["idx"]}', k['peer_ip'], k['peer_as'], k['peer_ip'], LOCAL, hold=180, caps=speaker_caps(spec))
         if k.get('open_ext'):
             sp.open_bytes = lambda s_, sp=sp: R.build_open(sp.asn, sp.hold, sp.router_id, sp.caps, extended=True)
@@ -742,10 +755,13 @@ def judge(w, plan, kinds, speakers, sent, h, unpack_log, violations, probes) -> 
                 # nothing of the script went out on this session: all exabgp saw was the speaker's OPEN (and KEEPALIVE), valid by construction
                 violations.append(viol('C03/valid-message-refused', f'session {i}.{sess.index} had only sent its well-formed OPEN{" (RFC 9072 extended format)" if k.get("open_ext") else ""} and was ended with NOTIFICATION {sess.notification_rx[0]}/{sess.notification_rx[1]}', gen='open'))
                 return
+            if not mine_sent and sess.state == 'closed' and sess.notification_rx is None and sess.closed_by == 'exabgp' and sess.sent_open and plan['scripts'][i]['state'] in ('established', 'openconfirm'):
+                violations.append(viol('C03/closed-without-notification', f'session {i}.{sess.index} had only sent its well-formed OPEN and was closed by ExaBGP without a NOTIFICATION (the peer task died?)', type=1, gen='open'))
+                return
             if sess.state == 'closed':
                 n = sess.notification_rx
                 if n is None:
-                    if sess.closed_by != 'speaker' and mine_sent and not any(r['type'] == 3 for r in mine_sent) and plan['scripts'][i]['state'] == 'established':
+                    if sess.closed_by != 'speaker' and mine_sent and not any(r['type'] == 3 for r in mine_sent) and sess.index == 0:
                         probes['closed_without_notification'] = probes.get('closed_without_notification', 0) + 1
                         last = mine_sent[-1]
                         violations.append(viol('C03/closed-without-notification', f'session {i}.{sess.index} was closed by ExaBGP without a NOTIFICATION after a {last["item"]["gen"]} type {last["type"]} body', type=last['type'], gen=last['item']['gen']))
